@@ -62,6 +62,12 @@ def gen_inputs(ctx):
     return ini, ac, acm
 
 
+def setup_for(ops, k):
+    """the ops an op depends on: the environment line and the latest include-file definition before it"""
+    inc = [o for o in ops[:k] if o.startswith('incfile ')]
+    return [ops[0]] + inc[-1:]
+
+
 def run_conf(ctx, exe=None):
     quick = ctx.tier == 'quick'
     if exe is None or 'h_conf' not in os.path.basename(exe):
@@ -77,6 +83,21 @@ def run_conf(ctx, exe=None):
     mid = [b'a=1\n# see @INCLUDE other.conf', b'a=1\n# see @INCLUDE other.conf\n', b'v=x @INCLUDE y', b'v=x @INCLUDE y\n', b'  @INCLUDE inc.conf',
            b'  @INCLUDE inc.conf\n', b'a=1\n\t@INCLUDE ', b'k=@INCLUDE @INCLUDE ', b'[s]\nn=1 @INCLUDE z\nm=2', b'x @INCLUDE', b'@INCLUDEx=1', b'a=b\n @INCLUDE \n']
     ops += ['inif 61 ' + hx(s) for s in mid] + ['inif 61 ' + hx(s) for s in ini[:: max(1, len(ini) // 150)] if b'@INCLUDE ' not in s]
+    # include lines that resolve to an existing file, padded with blanks up to and beyond the size of the path buffer (PATH_MAX):
+    # the directive text is copied back into that buffer for the replacement.  The model gets the text with the file inlined.
+    inc = b'inc=1\n'
+    ops.append('incfile ' + hx(inc))
+    for pad in [0, 1, 7] + list(range(4060, 4100)) + [4200, 9000]:
+        for padc, tail in ((b' ', b'\nafter=2\n'), (b'\t', b'')):
+            line = b'@INCLUDE qvinc.conf' + padc * pad
+            doc = b'before=0\n' + line + tail
+            inl = doc.replace(line, inc) if len(line) < 4096 else None
+            # lines too long for the path buffer are refused (NULL): nothing to inline, the model is given the refusal's equivalent
+            ops.append('inif 61 ' + hx(doc) + ('\tinif 61 ' + hx(inl) if inl is not None else '\tnullres'))
+    # a file that includes itself (directly, or in a cycle of length one through the included file): must end with a refusal
+    ops.append('incfile ' + hx(b'x=1\n@INCLUDE qvinc.conf\n'))
+    ops.append('inif 61 ' + hx(b'a=0\n@INCLUDE qvinc.conf\nb=2\n') + '\tnullres')
+    ops.append('incfile ' + hx(inc))
     tbl = enc_table(AC_C17_TABLE)
     for s in ac:
         ops.append('ac 0 0 %s %s' % (tbl, hx(s)))
@@ -101,7 +122,7 @@ def run_conf(ctx, exe=None):
         if a in ('CRASH', 'TIMEOUT', 'DIED'):
             obs = 'timeout' if a == 'TIMEOUT' else 'crash'
             ctx.report('impl-vs-spec', {'op': kind, 'observed': obs}, '%s parser: %s on arbitrary input' % ('INI-style' if kind in ('ini', 'inif') else 'Apache-style', obs),
-                       {'area': 'conf', 'ops': [ops[0], op], 'actual': a})
+                       {'area': 'conf', 'ops': setup_for(ops, k) + [op], 'actual': a})
         elif a != m:
             nbad += 1
             if nbad <= 6:
@@ -129,13 +150,13 @@ def run_conf(ctx, exe=None):
             m = re.search(r'(ERROR: AddressSanitizer: [^\n]*|runtime error: [^\n]*|SUMMARY: [^\n]*)', tail)
             ctx.report('impl-vs-spec', {'op': kind, 'observed': obs},
                        '%s parser: %s under %s' % ('INI-style' if kind in ('ini', 'inif') else 'Apache-style', m.group(1) if m else 'process died', name),
-                       {'area': 'conf', 'ops': [xops[0], op], 'build': name, 'stderr': tail[-800:]})
+                       {'area': 'conf', 'ops': setup_for(xops, idx) + [op], 'build': name, 'stderr': tail[-800:]})
         for k, l in enumerate(sl):
             if l in ('CRASH', 'TIMEOUT'):
                 op = xops[k]
                 kind = op.split(' ')[0]
                 ctx.report('impl-vs-spec', {'op': kind, 'observed': 'timeout' if l == 'TIMEOUT' else 'crash'},
-                           '%s parser: %s under %s' % ('INI-style' if kind in ('ini', 'inif') else 'Apache-style', l, name), {'area': 'conf', 'ops': [xops[0], op], 'build': name})
+                           '%s parser: %s under %s' % ('INI-style' if kind in ('ini', 'inif') else 'Apache-style', l, name), {'area': 'conf', 'ops': setup_for(xops, k) + [op], 'build': name})
     # ---- directed: deeply nested sections (stack use of the recursion: 4 KiB line buffer per level)
     deep = []
     for depth in (200, 1500, 2500, 6000):
